@@ -34,7 +34,7 @@ for p in props:
     })
 man = {
     "version": 1,
-    "setup_cmd": "cd lean && lake build TangeloModel Driver TangeloProofs tmodel",
+    "setup_cmd": "cd lean && lake build TangeloModel TangeloProofs tmodel",
     "hooks": {"guard": "TANGELO_VERIF", "enable": "no hooks are needed: every observation point is callable in-process; the guard name is reserved",
               "baseline_off_cmd": base["cmd"], "source_commits": [], "add_only": True},
     "engines": [{"name": "lean4-model+correspondence", "path": "lean/ + harness/",
@@ -45,4 +45,12 @@ man = {
     "notes": "See DESIGN.md. known_findings.json lists genuine defects kept as findings and the fix: commits made in /repo.",
 }
 json.dump(man, open(os.path.join(ROOT, "MANIFEST.json"), "w"), indent=1)
+# root of the proofs library: every lemma / property file present
+proofs = []
+for r, _, fs in os.walk(os.path.join(ROOT, "lean", "TangeloProofs")):
+    for f in sorted(fs):
+        if f.endswith(".lean"):
+            rel = os.path.relpath(os.path.join(r, f), os.path.join(ROOT, "lean"))[:-5].replace(os.sep, ".")
+            proofs.append(rel)
+open(os.path.join(ROOT, "lean", "TangeloProofs.lean"), "w").write("".join(f"import {m}\n" for m in sorted(proofs)))
 print("claimed", [c["property_id"] for c in checks], "not_applicable", len(na))
